@@ -394,6 +394,9 @@ func runRefcount(w *mon.Worker, prop string) {
 	for i := 0; i < w.Share(w.Scale(800, 80000)); i++ {
 		w.Case("stale-released", nil, rfStaleReleasedCase)
 	}
+	for i := 0; i < w.Share(w.Scale(400, 40000)); i++ {
+		w.Case("option-combinations", nil, rfOptionCombinationsCase)
+	}
 	mon.ClearProb()
 	if prop == "C10" {
 		// consumers depend on it too: a result obtained after the owner cancelled the root context is still delivered
@@ -1708,4 +1711,110 @@ func rfStaleReleasedCase(c *mon.Case) {
 			c.Violate("release", "refcount-release-count-final", "stale-released template: the release function of result %d has run %d times after everything was released and cleared, want once", 100+i, k)
 		}
 	}
+}
+
+// rfOptionCombinationsCase: the value container and the error container are independent options. Each of the four
+// combinations delivers a value result and an error result to whatever containers exist (and to the reference callback).
+func rfOptionCombinationsCase(c *mon.Case) {
+	r := c.Rng
+	withTarget, withErr := r.IntN(2) == 0, r.IntN(2) == 0
+	failFirst := r.IntN(2) == 0
+	errTok := fmt.Errorf("resolve-error (option combination case)")
+	var mu sync.Mutex
+	calls := 0
+	var releasedFns []func()
+	resolver := func(ctx context.Context, released func()) (int, func(), error) {
+		mu.Lock()
+		n := calls
+		calls++
+		releasedFns = append(releasedFns, released)
+		mu.Unlock()
+		if (n == 0) == failFirst {
+			return 0, nil, errTok
+		}
+		return 100 + n, func() {}, nil
+	}
+	var target *ccontainer.CContainer[int]
+	var targetErr *ccontainer.CContainer[*error]
+	if withTarget {
+		target = ccontainer.NewCContainer[int](0)
+	}
+	if withErr {
+		targetErr = ccontainer.NewCContainer[*error](nil)
+	}
+	ctx, cancel := context.WithCancel(context.Background())
+	defer cancel()
+	rc := refcount.NewRefCount[int](ctx, false, target, targetErr, resolver)
+	var lastVal atomic.Int64
+	var lastErr atomic.Pointer[error]
+	ref := rc.AddRef(func(resolved bool, v int, err error) {
+		if resolved {
+			lastVal.Store(int64(v))
+			if err != nil {
+				lastErr.Store(&err)
+			} else {
+				lastErr.Store(nil)
+			}
+		} else {
+			lastVal.Store(-1)
+			lastErr.Store(nil)
+		}
+	})
+	defer ref.Release()
+	judge := func(round int) bool {
+		if !mon.Quiesce(5 * time.Second) {
+			c.Inconclusive("no quiescence")
+			return false
+		}
+		mu.Lock()
+		n := calls - 1
+		mu.Unlock()
+		isErr := (n == 0) == failFirst
+		what := fmt.Sprintf("round %d (value container: %v, error container: %v)", round, withTarget, withErr)
+		if isErr {
+			if pe := lastErr.Load(); pe == nil || *pe != errTok {
+				c.Violate("resolver", "refcount-reference-not-told", "%s: the resolver returned an error; the reference callback was last told val %d err %v", what, lastVal.Load(), pe)
+				return false
+			}
+			if withErr {
+				if pe := targetErr.GetValue(); pe == nil || *pe != errTok {
+					c.Violate("resolver", "refcount-target-error-not-updated", "%s: the resolver returned an error but the error container holds %v", what, pe)
+					return false
+				}
+			}
+			if withTarget && target.GetValue() != 0 {
+				c.Violate("resolver", "refcount-target-not-updated", "%s: the resolver returned an error but the value container holds %d", what, target.GetValue())
+				return false
+			}
+		} else {
+			if lastVal.Load() != int64(100+n) || lastErr.Load() != nil {
+				c.Violate("resolver", "refcount-reference-not-told", "%s: the resolver returned %d; the reference callback was last told val %d err %v", what, 100+n, lastVal.Load(), lastErr.Load())
+				return false
+			}
+			if withTarget && target.GetValue() != 100+n {
+				c.Violate("resolver", "refcount-target-not-updated", "%s: the resolver returned %d but the value container holds %d", what, 100+n, target.GetValue())
+				return false
+			}
+			if withErr && targetErr.GetValue() != nil {
+				c.Violate("resolver", "refcount-stale-error-in-error-container", "%s: the newest result is a value, yet the error container still holds %v", what, *targetErr.GetValue())
+				return false
+			}
+		}
+		return true
+	}
+	c.Count("option_combination_templates", 1)
+	c.NonTrivial()
+	c.Mix(uint64(map[bool]int{true: 1}[withTarget])<<2 | uint64(map[bool]int{true: 1}[withErr])<<1 | uint64(map[bool]int{true: 1}[failFirst]))
+	if !judge(0) {
+		return
+	}
+	// invalidate: the other kind of result follows
+	mu.Lock()
+	f := releasedFns[len(releasedFns)-1]
+	mu.Unlock()
+	f()
+	if !judge(1) {
+		return
+	}
+	rc.ClearContext()
 }
